@@ -132,6 +132,30 @@ func c11Property(rt *rapid.T) {
 	if !gen.EqualAV(c.dt, c.av, got) {
 		rt.Fatalf("round trip through %v changed the value: got %s\n%s", dest.Type(), clip200(gen.RenderAV(c.dt, got)), c)
 	}
+	// a destination that already holds another value of the same representation (the second of two decodes into one
+	// variable): the old contents must not show through. Top-level Go maps are excluded: decoding into a non-empty map
+	// merges, as encoding/json does.
+	if c.rep.Kind != "map" && c.rep.Kind != "ifacemap" {
+		av2 := gen.DrawAV(rt, c.dt, c.rep, c.v, false, "previous")
+		old := gen.ToGo(av2, c.dt, c.rep)
+		for old.Kind() == reflect.Ptr && old.Type() != reflect.PtrTo(topDestType(c.rep)) && !old.IsNil() {
+			old = old.Elem()
+		}
+		dest2 := reflect.New(topDestType(c.rep))
+		if old.Type() == dest2.Type() && !old.IsNil() {
+			dest2 = old
+		} else if old.Type() == dest2.Type().Elem() {
+			dest2.Elem().Set(old)
+		}
+		wasNull, fail := decodeInto(codec, enc, dest2.Interface(), c.v)
+		if fail != "" || wasNull {
+			rt.Fatalf("%s wasNull=%v (decoding into a destination that already held %s)\n%s", fail, wasNull, clip200(gen.RenderAV(c.dt, av2)), c)
+		}
+		got3, err := gen.FromGo(dest2.Elem(), c.dt)
+		if err != nil || !gen.EqualAV(c.dt, c.av, got3) {
+			rt.Fatalf("decoding into a destination that already held %s yields %s (%v): stale contents show through\n%s", clip200(gen.RenderAV(c.dt, av2)), clip200(gen.RenderAV(c.dt, got3)), err, c)
+		}
+	}
 	// untyped destination: preferred representation holding the same value
 	var any interface{}
 	if !gen.UntypedDecodable(c.dt) {
